@@ -45,11 +45,34 @@ impl Evtx {
     #[verifier::external_body]
     pub fn from_evtxrs(record: &SerializedEvtxRecord) -> (r: Evtx) ensures r.src() == *record { unimplemented!() }
     pub uninterp spec fn src(&self) -> SerializedEvtxRecord;
+    #[verifier::external_body]
+    pub fn id(&self) -> u64 { unimplemented!() }   // the record's own EventRecordID: any value
 }
 pub type RecResult = core::result::Result<SerializedEvtxRecord, EvtxErr>;
 #[verifier::external_body]
 pub struct EvtxParser { _p: u8 }
 impl EvtxParser { pub uninterp spec fn recs(&self) -> Seq<RecResult>; }
+/// `records()`: the file's records in file order
+pub struct RecIter0 { pub ghost recs: Seq<RecResult>, pub ghost pos: int }
+impl RecIter0 {
+    #[verifier::external_body]
+    pub fn next(&mut self) -> (r: Option<RecResult>)
+        requires 0 <= old(self).pos <= old(self).recs.len()
+        ensures
+            final(self).recs == old(self).recs,
+            old(self).pos < old(self).recs.len() ==> r is Some && r.unwrap() == old(self).recs[old(self).pos] && final(self).pos == old(self).pos + 1,
+            old(self).pos >= old(self).recs.len() ==> r is None && final(self).pos == old(self).pos,
+    { unimplemented!() }
+    /// assumed: Iterator::enumerate pairs each item with its position, from 0
+    #[verifier::external_body]
+    pub fn enumerate(self) -> (r: RecIter) ensures r.recs == self.recs, r.pos == self.pos { unimplemented!() }
+}
+impl Iterator for RecIter0 {
+    type Item = RecResult;
+    #[verifier::external_body]
+    fn next(&mut self) -> Option<RecResult> { unimplemented!() }
+}
+/// `records().enumerate()`
 pub struct RecIter { pub ghost recs: Seq<RecResult>, pub ghost pos: int }
 impl RecIter {
     #[verifier::external_body]
@@ -67,7 +90,7 @@ impl Iterator for RecIter {
     fn next(&mut self) -> Option<(usize, RecResult)> { unimplemented!() }
 }
 #[verifier::external_body]
-pub fn verif_records_enumerate(p: &mut EvtxParser) -> (r: RecIter)
+pub fn verif_records(p: &mut EvtxParser) -> (r: RecIter0)
     ensures r.recs == old(p).recs(), r.pos == 0, final(p).recs() == old(p).recs()
 { unimplemented!() }
 #[verifier::external_body]
@@ -107,7 +130,7 @@ pub open spec fn holds_selected(m: Map<EventsKey, Evtx>, recs: Seq<RecResult>, a
 
 impl EvtxReader {
 //@cut fn path=src/readers/evtxreader.rs impl=EvtxReader name=analyze
-//@replace "self.evtxparser.records().enumerate()" "verif_records_enumerate(&mut self.evtxparser)"
+//@replace "self.evtxparser.records()" "verif_records(&mut self.evtxparser)"
 //@replace "self.events_processed += 1;" "verif_count_inc(&mut self.events_processed);"
 //@replace "self.events_accepted += 1;" "verif_count_inc(&mut self.events_accepted);"
 //@replace "self.out_of_order += 1;" "verif_count_inc(&mut self.out_of_order);"
@@ -144,8 +167,7 @@ impl EvtxReader {
                 let ghost ev0 = self.events@;
 //@after "self.events.insert("
                     proof {
-                        assert(self.events@ == ev0.insert((timestamp, index), evtx));
-                        assert(index as int == j);
+                        assert(self.events@ == ev0.insert((timestamp, j as usize), evtx));
                     }
 //@mutate "Result_Filter_DateTime2::AfterRange => {" "Result_Filter_DateTime2::AfterRange => { if self.out_of_order == 0 { break; }"
 //@end
